@@ -151,6 +151,17 @@ func c20Check(c c20Case) (*eng.Fail, string) {
 		for a := uint64(0x1020); a >= 0xff8; a -= 3 {
 			order = append(order, a)
 		}
+		atTop := false
+		for _, e := range expNE {
+			if e.begin+uint64(len(e.data)) == 0 {
+				atTop = true // a block whose last byte is the last byte of the address space
+			}
+		}
+		if atTop {
+			for a := ^uint64(0) - 11; a != 0; a++ {
+				order = append(order, a)
+			}
+		}
 		for _, a := range order {
 			var want []byte
 			for _, e := range expNE {
@@ -164,7 +175,11 @@ func c20Check(c c20Case) (*eng.Fail, string) {
 				return &eng.Fail{Sig: part.name + " Address panic " + eng.PanicSite(stack), What: fmt.Sprintf("Address(%#x) panics: %v", a, p), Case: c}, ""
 			}
 			if fmt.Sprintf("%x", g) != fmt.Sprintf("%x", want) || (g == nil) != (want == nil) {
-				return &eng.Fail{Sig: part.name + " Address lookup", What: fmt.Sprintf("%s.Address(%#x) = %x, expected %x", part.name, a, g, want), Case: c}, ""
+				tag := ""
+				if atTop && a > 1<<63 {
+					tag = " [block ends at 2^64]"
+				}
+				return &eng.Fail{Sig: part.name + " Address lookup" + tag, What: fmt.Sprintf("%s.Address(%#x) = %x, expected %x", part.name, a, g, want), Case: c}, ""
 			}
 		}
 	}
@@ -173,7 +188,7 @@ func c20Check(c c20Case) (*eng.Fail, string) {
 
 func init() {
 	checks["C20"] = eng.Check{
-		Rule:        "ELF64-LE files written by the harness: type in {NONE, REL, EXEC, DYN, CORE} x <=2 (thorough 3) user sections (type PROGBITS/NOBITS/NOTE x flags {0, ALLOC, ALLOC|EXEC} x addr {0, 0x1000, 0x1004, 0x1008} x size {0,4,8}) x <=2 program headers (type LOAD/NOTE x vaddr {0x1000,0x1004,0x1008} x filesz {0,4,8} x memsz {0,4,8,12} incl. memsz<filesz; plus LOAD headers that claim 4 bytes or 64 KiB more file bytes than were placed for them, i.e. a file extent reaching into the following file content or past the end of the file) — all combinations incl. overlapping and adjacent ones — through elf.NewParser/MachineCode/Memory/Entrypoint/Address. Oracle from the generator's description: REL/CORE/NONE and any overlap must be rejected; whatever loads must equal the description (code = qualifying sections as sorted blocks, adjacent ones not merged; memory = file bytes then zeros; Address(a) for every a in 0xff8..0x1020 = tail of its block or nil). Non-trivial = file for which both images load.",
+		Rule:        "ELF64-LE files written by the harness: type in {NONE, REL, EXEC, DYN, CORE} x <=2 (thorough 3) user sections (type PROGBITS/NOBITS/NOTE x flags {0, ALLOC, ALLOC|EXEC} x addr {0, 0x1000, 0x1004, 0x1008} x size {0,4,8}) x <=2 program headers (type LOAD/NOTE x vaddr {0x1000,0x1004,0x1008} x filesz {0,4,8} x memsz {0,4,8,12} incl. memsz<filesz; plus LOAD headers that claim 4 bytes or 64 KiB more file bytes than were placed for them, i.e. a file extent reaching into the following file content or past the end of the file) — all combinations incl. overlapping and adjacent ones — through elf.NewParser/MachineCode/Memory/Entrypoint/Address. Oracle from the generator's description: REL/CORE/NONE and any overlap must be rejected; whatever loads must equal the description (code = qualifying sections as sorted blocks, adjacent ones not merged; memory = file bytes then zeros; Address(a) for every a in 0xff8..0x1020 = tail of its block or nil); plus a code section and a segment of 4 and 8 bytes ending exactly at 2^64 with lookups over the last 12 addresses. Non-trivial = file for which both images load.",
 		Assumptions: []string{"errors are always acceptable outcomes (the property allows 'reports an error'); crashes are not", "files are well-formed ELF64 containers (corruption is C26's domain)"},
 		Run: func(r *eng.Run) {
 			dir, err := os.MkdirTemp("", "vc20")
@@ -270,6 +285,12 @@ func init() {
 				if n.Add(1)%2000 == 0 {
 					runtime.GC() // finalizers close files of rejected parsers
 				}
+			}
+			// (0) a code section / a segment whose last byte is the last byte of the address space
+			for _, n := range []int{4, 8} {
+				top := -uint64(n)
+				do(elfgen.File{Type: elfgen.ET_EXEC, Entry: top, Sections: []elfgen.Section{{Type: elfgen.SHT_PROGBITS, Flags: 6, Addr: top, Data: mkdata(n, 0x10), Size: uint64(n)}}, Progs: fixedProgs[0]})
+				do(elfgen.File{Type: elfgen.ET_EXEC, Entry: 0x1000, Sections: fixedSecs[0], Progs: []elfgen.Prog{{Type: elfgen.PT_LOAD, Vaddr: top, Data: mkdata(n, 0x80), Memsz: uint64(n)}}})
 			}
 			// (1) all section lists x fixed program headers x types
 			r.Par(len(secLists), func(i int) {
